@@ -324,6 +324,11 @@ void describeGridPart(const DbGrid* g, Desc& d)
   }
   d.VD("grid.angles", g->getAngles());
 }
+// Rules are of two kinds. Structural rules (sizes that agree, indices in range, one role per column, API-enforced
+// refusals such as DbLine/DbGraphO::isConsistent, negative grid counts or meshes, polygons under 3 vertices, mesh
+// corners outside the apices) hold for every object the API can build: a loader returning an object that breaks one is
+// judged. Parameter-range rules (prefix "param: ") describe values the constructors accept without any check
+// (tools/api_rules_audit.cpp lists the calls): they are counted as reach probes and never judged.
 std::string consistentDbCommon(const Db* db)
 {
   int ncol = db->getColumnNumber();
@@ -623,11 +628,13 @@ template<class M> std::string consistentDbMesh(const M* m, int ncorner)
 {
   int na = m->getNApices(), nm = m->getNMeshes();
   if (na < 0 || nm < 0) return "negative mesh dimensions";
-  if (na > m->getSampleNumber()) return "more apices than samples";
+  if (na > m->getSampleNumber()) return "param: more apices than samples";
   for (int im = 0; im < nm && im < 1000; im++)
     for (int c = 0; c < ncorner; c++)
     {
       int a = m->getApex(im, c);
+      // no such corner: meshes with another number of corners than ndim+1 are accepted by createFromExternal too
+      if (IFFFF(a)) return "param: meshes not sized by ndim+1";
       if (a < 0 || a >= na) return "mesh " + std::to_string(im) + " refers to apex " + std::to_string(a) + " of " + std::to_string(na);
     }
   return "";
@@ -754,8 +761,8 @@ std::string consistentModel(const ASerializable* o)
   const Model* m = dynamic_cast<const Model*>(o);
   if (!m) return "not a Model";
   int ndim = m->getDimensionNumber(), nvar = m->getVariableNumber(), ncov = m->getCovaNumber();
-  if (ndim < 1) return "space dimension " + std::to_string(ndim);
-  if (nvar < 1) return "variable count " + std::to_string(nvar);
+  if (ndim < 1) return "param: space dimension " + std::to_string(ndim);
+  if (nvar < 1) return "param: variable count " + std::to_string(nvar);
   if (ncov < 0) return "negative structure count";
   for (int ic = 0; ic < ncov; ic++)
   {
@@ -920,7 +927,7 @@ std::string consistentNeigh(const ASerializable* o)
   const ANeigh* n = dynamic_cast<const ANeigh*>(o);
   if (!n) return "not a neighbourhood";
   int ndim = (int)n->getNDim();
-  if (ndim < 1) return "space dimension " + std::to_string(ndim);
+  if (ndim < 1) return "param: space dimension " + std::to_string(ndim);
   if (const NeighMoving* m = dynamic_cast<const NeighMoving*>(o))
   {
     if (m->getBiPtDist() == nullptr) return "no distance checker";
@@ -928,17 +935,17 @@ std::string consistentNeigh(const ASerializable* o)
     if ((int)m->getAnisoCoeffs().size() != nd) return "anisotropy coefficients not sized by the checker dimension";
     if ((int)m->getAnisoRotMats().size() != nd * nd) return "rotation matrix not sized by the checker dimension";
     if (m->getFlagAniso() && nd != ndim) return "anisotropy dimension " + std::to_string(nd) + " != space dimension " + std::to_string(ndim);
-    if (m->getNSect() < 1) return "sector count " + std::to_string(m->getNSect());
-    if (m->getNMini() > m->getNMaxi() && m->getNMaxi() > 0) return "nmini > nmaxi";
+    if (m->getNSect() < 1) return "param: sector count " + std::to_string(m->getNSect());
+    if (m->getNMini() > m->getNMaxi() && m->getNMaxi() > 0) return "param: nmini > nmaxi";
   }
   if (const NeighImage* i = dynamic_cast<const NeighImage*>(o))
   {
-    if ((int)i->getImageRadius().size() != ndim) return "image radius not sized by ndim";
-    for (int v : i->getImageRadius()) if (v < 0) return "negative image radius";
-    if (i->getSkip() < 0) return "negative skip";
+    if ((int)i->getImageRadius().size() != ndim) return "param: image radius not sized by ndim";
+    for (int v : i->getImageRadius()) if (v < 0) return "param: negative image radius";
+    if (i->getSkip() < 0) return "param: negative skip";
   }
   if (const NeighBench* b = dynamic_cast<const NeighBench*>(o))
-    if (!(b->getWidth() >= 0.)) return "negative bench width";
+    if (!(b->getWidth() >= 0.)) return "param: negative bench width";
   return "";
 }
 
@@ -1104,7 +1111,7 @@ std::string consistentVario(const ASerializable* o)
   if (!v) return "not a Vario";
   int nvar = v->getVariableNumber(), ndir = v->getDirectionNumber();
   if (nvar < 0 || ndir < 0) return "negative dimensions";
-  if (ndir > 0 && nvar < 1) return "directions without variables";
+  if (ndir > 0 && nvar < 1) return "param: directions without variables";
   if (!v->getVars().empty() && (int)v->getVars().size() != nvar * nvar) return "variances not sized nvar*nvar";
   if (!v->getVariableNames().empty() && (int)v->getVariableNames().size() != nvar) return "variable names not sized nvar";
   int ndim = ndir > 0 ? (int)v->getDirParam(0).getNDim() : 0;
@@ -1113,7 +1120,7 @@ std::string consistentVario(const ASerializable* o)
     const DirParam& p = v->getDirParam(id);
     std::string k = "dir" + std::to_string(id);
     if ((int)p.getNDim() != ndim) return k + ": space dimension differs from direction 0";
-    if (p.getLagNumber() < 0) return k + ": negative lag count";
+    if (p.getLagNumber() < 0) return "param: " + k + ": negative lag count";
     if ((int)p.getCodirs().size() != ndim) return k + ": direction vector not sized by ndim";
     if (!p.getGrincrs().empty() && (int)p.getGrincrs().size() != ndim) return k + ": grid increment not sized by ndim";
     int expect = v->getDirSize(id);
@@ -1489,7 +1496,7 @@ std::string consistentAnam(const ASerializable* o)
     if (k->getStats().getNRows() != k->getNClass() || k->getStats().getNCols() != k->getNElem())
       return "statistics not sized nclass x nelem";
     if ((long)k->getStats().getValues().size() != (long)k->getNClass() * k->getNElem()) return "statistics storage not sized nclass x nelem";
-    if (k->getNElem() < 6) return "fewer than 6 statistics per class"; // the per-class getters address columns 0..5
+    if (k->getNElem() < 6) return "param: fewer than 6 statistics per class"; // the per-class getters address columns 0..5
   }
   if (const AnamDiscreteDD* q = dynamic_cast<const AnamDiscreteDD*>(o))
   {
@@ -1602,7 +1609,7 @@ std::string consistentMesh(const ASerializable* o)
   if (const MeshEStandard* s = dynamic_cast<const MeshEStandard*>(o))
   {
     if (s->getApices().getNRows() > 0 && s->getApices().getNCols() != ndim) return "apices not sized by ndim";
-    if (s->getMeshes().getNRows() > 0 && s->getMeshes().getNCols() != ndim + 1) return "meshes not sized by ndim+1";
+    if (s->getMeshes().getNRows() > 0 && s->getMeshes().getNCols() != ndim + 1) return "param: meshes not sized by ndim+1";
     VectorInt v = s->getMeshes().getValues();
     for (int a : v) if (a < 0 || a >= na) return "mesh refers to apex " + std::to_string(a) + " of " + std::to_string(na);
   }
@@ -1610,11 +1617,12 @@ std::string consistentMesh(const ASerializable* o)
   {
     const Grid& g = t->getGrid();
     if (g.getNDim() != ndim) return "grid dimension differs";
-    if (ndim > 3) return "turbo meshing only exists for 1 to 3 dimensions";
+    if (ndim > 3) return "param: turbo meshing only exists for 1 to 3 dimensions";
     if (ndim > 0 && g.getNTotal() > 100000) return "";
-    for (int k = 0; k < ndim; k++) if (g.getNX(k) < 1) return "grid count < 1";
+    for (int k = 0; k < ndim; k++) if (g.getNX(k) < 1) return "param: grid count < 1";
     // the per-cell mesh count has no getter: an unset one shows up as an infinite mesh size
-    if (nm > 0 && !std::isfinite(t->getMeshSize(0))) return "meshing not initialised (no mesh per cell)";
+    // (an overflowing cell size - DX near the largest double - shows up the same way: reach probe only)
+    if (nm > 0 && !std::isfinite(t->getMeshSize(0))) return "param: mesh size is not finite";
     for (int im = 0; im < nm && im < 2000; im++)
       for (int c = 0; c <= ndim; c++)
       {
@@ -1699,7 +1707,7 @@ std::string consistentTable(const ASerializable* o)
   const Table* t = dynamic_cast<const Table*>(o);
   if (!t) return "not a Table";
   int nr = t->getNRows(), nc = t->getNCols();
-  if (nr < 0 || nc < 0) return "negative dimensions";
+  if (nr < 0 || nc < 0) return "param: negative dimensions";
   if ((long)t->getValues().size() != (long)nr * nc) return "values not sized rows x cols";
   if (!t->getRowNames().empty() && (int)t->getRowNames().size() != nr) return "row names not sized by rows";
   if (!t->getColumnNames().empty() && (int)t->getColumnNames().size() != nc) return "column names not sized by columns";
@@ -1828,20 +1836,20 @@ std::string consistentRule(const ASerializable* o)
 {
   const Rule* r = dynamic_cast<const Rule*>(o);
   if (!r) return "not a Rule";
-  if (r->getMainNode() == nullptr) return "no main node";
+  if (r->getMainNode() == nullptr) return "param: no main node";
   std::string s = checkNode(r->getMainNode(), 0);
-  if (!s.empty()) return s;
+  if (!s.empty()) return "param: " + s;
   std::vector<int> fac;
   leafFacies(r->getMainNode(), 0, fac);
   std::sort(fac.begin(), fac.end());
   for (size_t i = 0; i < fac.size(); i++)
   {
-    if (fac[i] < 1 || fac[i] > (int)fac.size()) return "facies " + std::to_string(fac[i]) + " outside 1.." + std::to_string(fac.size());
-    if (i > 0 && fac[i] == fac[i - 1]) return "facies " + std::to_string(fac[i]) + " on two leaves";
+    if (fac[i] < 1 || fac[i] > (int)fac.size()) return "param: facies " + std::to_string(fac[i]) + " outside 1.." + std::to_string(fac.size());
+    if (i > 0 && fac[i] == fac[i - 1]) return "param: facies " + std::to_string(fac[i]) + " on two leaves";
   }
-  if (!(r->getRho() >= -1. && r->getRho() <= 1.)) return "correlation outside [-1,1]";
+  if (!(r->getRho() >= -1. && r->getRho() <= 1.)) return "param: correlation outside [-1,1]";
   if (const RuleShift* q = dynamic_cast<const RuleShift*>(o))
-    if (q->getShift().size() < 2) return "shift vector has fewer than 2 components";
+    if (q->getShift().size() < 2) return "param: shift vector has fewer than 2 components";
   return "";
 }
 void probeRule(ASerializable* o, Desc& d)
@@ -1958,8 +1966,10 @@ std::string consistentDbAny(const ASerializable* o)
     long n = 1;
     for (int k = 0; k < g->getNDim(); k++)
     {
-      if (g->getNX(k) < 1) return "grid count < 1";
-      if (!(g->getDX(k) > 0.)) return "grid mesh <= 0";
+      if (g->getNX(k) < 0) return "negative grid count";
+      if (g->getDX(k) < 0.) return "negative grid mesh";
+      if (g->getNX(k) < 1) return "param: grid count < 1";
+      if (!(g->getDX(k) > 0.)) return "param: grid mesh <= 0";
       n *= g->getNX(k);
     }
     if (g->getNDim() > 0 && n != g->getSampleNumber()) return "product of nx != sample count";
@@ -1969,7 +1979,7 @@ std::string consistentDbAny(const ASerializable* o)
   if (const DbGraphO* g = dynamic_cast<const DbGraphO*>(o)) { s = consistentDbGraph(g); if (!s.empty()) return s; }
   if (const DbMeshTurbo* m = dynamic_cast<const DbMeshTurbo*>(o))
   {
-    if (m->getNDim() < 1 && m->getNMeshes() > 0) return "meshes without space dimension";
+    if (m->getNDim() < 1 && m->getNMeshes() > 0) return "param: meshes without space dimension";
     s = consistentDbMesh(m, m->getNDim() + 1);
     if (!s.empty()) return s;
   }
